@@ -93,10 +93,10 @@ type c38cLoad struct {
 	finished int
 }
 
-func (l *c38cLoad) CallStarted(clients.Locality)                    { l.started++ }
-func (l *c38cLoad) CallFinished(clients.Locality, error)            { l.finished++ }
+func (l *c38cLoad) CallStarted(clients.Locality)                     { l.started++ }
+func (l *c38cLoad) CallFinished(clients.Locality, error)             { l.finished++ }
 func (l *c38cLoad) CallServerLoad(clients.Locality, string, float64) {}
-func (l *c38cLoad) CallDropped(category string)                     { l.dropped = append(l.dropped, category) }
+func (l *c38cLoad) CallDropped(category string)                      { l.dropped = append(l.dropped, category) }
 
 var c38cErrChild = errors.New("c38c: child picker says no")
 
@@ -136,6 +136,7 @@ type c38cDropResult struct {
 	leaves   int64
 	draws    int64
 	maxRange int64
+	capped   string
 }
 
 // c38cDropCheck runs one drop configuration (1 or 2 categories, in order) with
@@ -196,6 +197,13 @@ func c38cDropCheck(fracs []c38cFrac, state connectivity.State) (res c38cDropResu
 			if a > res.maxRange {
 				res.maxRange = a
 			}
+		}
+		if res.maxRange > 1<<22 {
+			// cannot be walked exhaustively in the time budget (the unchanged
+			// code never needs more than 10^6 draws): give up on this
+			// configuration and say so
+			res.capped = fmt.Sprintf("%s: random range %d too large to enumerate", desc(), res.maxRange)
+			return
 		}
 		var out string
 		isDrop := err != nil && status.Code(err) == codes.Unavailable && strings.Contains(err.Error(), "dropped")
@@ -359,6 +367,10 @@ func TestVerif_C38_Drop(t *testing.T) {
 		if res.msg != "" {
 			r.Violation(P, fmt.Sprintf("drop %s child=%v", strings.Join(ks, ","), st), res.msg, map[string]any{"fracs": fracs, "state": int(st)})
 		}
+		if res.capped != "" {
+			r.Cap(P, res.capped)
+			return
+		}
 		if st == connectivity.Ready {
 			switch {
 			case interesting:
@@ -474,10 +486,9 @@ func c38cCBRun(max uint32, seq []int, viaRegistry bool, name string) (fail strin
 			}
 		case 2, 3:
 			if len(open) == 0 {
-				if k == len(seq)-1 {
-					skip = true
-				}
-				continue
+				// nothing to finish: this sequence is the same history as the
+				// shorter one without this op (enumerated separately)
+				return "", true, admitted, rejected
 			}
 			var d func(balancer.DoneInfo)
 			if op == 2 {
@@ -509,7 +520,7 @@ func TestVerif_C38_PickerCB(t *testing.T) {
 	r := vk.Start(t, "c38c_picker_cb", "exploration", P)
 	defer r.Finish()
 	depth := r.Pick(7, 9)
-	r.Rule(P, fmt.Sprintf("every sequence of length 1..%d over {pick, pick whose child pick fails, finish oldest admitted RPC, finish newest admitted RPC} (sequences whose last op has nothing to finish are skipped) for max_requests in {0,1,2} through the real picker.Pick + real ClusterRequestsCounter (fresh per sequence; max_requests=1 also via the global registry), compared after every op with an in-flight ledger; at the end all admitted RPCs are finished and the counter must read 0; non-trivial = sequences with at least one admitted and one rejected pick", depth))
+	r.Rule(P, fmt.Sprintf("every sequence of length 1..%d over {pick, pick whose child pick fails, finish oldest admitted RPC, finish newest admitted RPC} (sequences containing a finish with nothing in flight are skipped: same history as a shorter sequence) for max_requests in {0,1,2} through the real picker.Pick + real ClusterRequestsCounter (fresh per sequence; max_requests=1 also via the global registry), compared after every op with an in-flight ledger; at the end all admitted RPCs are finished and the counter must read 0; non-trivial = sequences with at least one admitted and one rejected pick", depth))
 	if r.ReplayFile() != "" {
 		var rp struct {
 			Max uint32 `json:"max"`
